@@ -17,6 +17,9 @@ inline void dump_request(cppcms::http::request &rq,std::ostream &out){ using vf:
 	{ std::vector<std::string> v; for(cppcms::http::request::cookies_type::const_iterator i=rq.cookies().begin();i!=rq.cookies().end();++i) v.push_back(hex(i->first)+"="+hex(i->second.value())); std::sort(v.begin(),v.end()); for(size_t i=0;i<v.size();i++) out<<"C "<<v[i]<<"\n"; }
 	{ std::pair<void*,size_t> r=rq.raw_post_data(); out<<"R "<<hex(std::string((char*)r.first,r.second))<<"\n"; }
 	{ cppcms::http::request::files_type f=rq.files(); for(size_t i=0;i<f.size();i++){ std::string data; std::istream &in=f[i]->data(); in.seekg(0); std::streambuf *b=in.rdbuf(); int c; while((c=b->sbumpc())!=EOF) data+=(char)c; out<<"U "<<hex(f[i]->name())<<" "<<hex(f[i]->filename())<<" "<<hex(f[i]->mime())<<" "<<f[i]->size()<<" "<<hex(data)<<"\n"; } }
+	// optional: the application saves every uploaded file (query saveto=<directory>): to an existing directory (the file must arrive there complete) or to a
+	// directory that does not exist (save_to throws; the application carries on). Either way nothing may stay behind in the uploads directory after the request.
+	{ std::string dir=rq.get("saveto"); if(!dir.empty()){ cppcms::http::request::files_type f=rq.files(); for(size_t i=0;i<f.size();i++){ std::string target=dir+"/saved_"+std::to_string(i); try{ f[i]->save_to(target); out<<"SAVED "<<i<<"\n"; }catch(std::exception const &){ out<<"SAVE-FAILED "<<i<<"\n"; } } } }
 	out<<"END\n"; }
 class sync_echo : public cppcms::application { public: sync_echo(cppcms::service &s):cppcms::application(s){} void main(std::string){ g_main_calls++; response().io_mode(cppcms::http::response::nogzip); response().set_plain_text_header(); dump_request(request(),response().out()); } };
 class async_echo : public cppcms::application { public: async_echo(cppcms::service &s):cppcms::application(s){} void main(std::string){ g_main_calls++; response().io_mode(cppcms::http::response::asynchronous); response().set_plain_text_header(); dump_request(request(),response().out()); release_context()->async_complete_response(); } };
